@@ -59,6 +59,13 @@ def rule_C14(env):
                     "%s stores a popped handle inside an existing cell; together with DUP (a second strong handle to the same cell) this builds an Rc cycle that "
                     "State::reset()/drop never frees (no tear-down of the object graph exists)" % op, loc,
                     {"alias_creating_opcodes": sorted(alias_ops), "variants_holding_handles": holders})
+    # every opcode that puts a second strong handle to an existing cell on the stack widens the set of histories that
+    # close a cycle; DUP is the one the format requires (known), any other one is new
+    if cycle_capable and not teardown:
+        for op in sorted(alias_ops):
+            res.add("alias", "process_stack_ops/%s" % op,
+                    "%s pushes a second strong handle to a cell that is already held by the stack or the memo (no copy): with the storing opcodes %s this closes Rc cycles "
+                    "that are never freed" % (op, sorted(storing)), loc)
     # (c) deliberate leaks / handles in statics
     for k in sorted(prog.bodies):
         if "tests::" in k:
